@@ -36,9 +36,11 @@ def stub_eval(net, stub=None, **kw):
     case = stub["cases"][key]
     if case.get("raise"):
         raise StubError(f"stub: evaluation of {key} fails")
+    # the evaluation must receive the options meant for it: pf_options (tag n0) for N-0, pf_options_nminus1 (n1) for N-1
+    wrong_opts = kw.get("tag") != ("n0" if key == "n0" else "n1")
     for el in stub["elements"]:
         col = "vm_pu" if el == "bus" else "loading_percent"
-        vals = [float("nan") if v is None else float(v) for v in case[el]]
+        vals = [float("nan") if v is None else float(v) + (1000. if wrong_opts else 0.) for v in case[el]]
         net[f"res_{el}"] = pd.DataFrame({col: vals}, index=net[el].index)
     net["converged"] = True
 
@@ -105,7 +107,7 @@ def stub_scenario(rng, with_raise=True):
             cases[f"{el}:{i}"] = c
     if rng.random() < 0.5 and "trafo" in order:       # dict order of the element kinds
         order = {"trafo": order["trafo"], "line": order["line"]}
-    stub = {"elements": elements, "base": base, "cases": cases}
+    stub = {"elements": elements, "base": base, "cases": cases, "opts_via": rng.choice(["args", "args", "user"])}
     return net, order, stub
 
 
@@ -180,14 +182,19 @@ def run_real(net, order, stub, raise_errors, which, n_procs=2):
     obs = {"raised": None}
     # make the unwritten np.empty cells recognisable is not possible from outside; they are only compared where the
     # model says a cause was written
+    okw = {}
+    if stub.get("opts_via") == "user":
+        net.user_pf_options = {"pf_options": {"tag": "n0"}, "pf_options_nminus1": {"tag": "n1"}}
+    else:
+        okw = {"pf_options": {"tag": "n0"}, "pf_options_nminus1": {"tag": "n1"}}
     try:
         with core.quiet():
             if which == "seq":
                 res = run_contingency(net, cases, contingency_evaluation_function=stub_eval, stub=stub,
-                                      raise_errors=raise_errors)
+                                      raise_errors=raise_errors, **okw)
             else:
                 res = run_contingency_parallel(net, cases, contingency_evaluation_function=stub_eval, stub=stub,
-                                               raise_errors=raise_errors, n_procs=(1 if which == "par0" else n_procs))
+                                               raise_errors=raise_errors, n_procs=(1 if which == "par0" else n_procs), **okw)
         obs["res"] = res
     except Exception as e:       # noqa  (StubError = the scenario's own failing case; anything else is observed too)
         obs["raised"] = type(e).__name__
@@ -205,6 +212,13 @@ def compare_model(ctx, tag, net, order, stub, raise_errors, which, resp, meta, c
     res = obs["res"]
     if stopped != (obs["raised"] is not None) or obs["raised"] not in (None, "StubError"):
         dis.append(f"{tag}: model says exception {'propagates' if stopped else 'does not propagate'}, real: {obs.get('error')}")
+    if res is not None:
+        for el in stub["elements"]:
+            col = "vm_pu" if el == "bus" else "loading_percent"
+            want = np.array([np.nan if v is None else float(v) for v in stub["cases"]["n0"][el]])
+            if not np.array_equal(np.asarray(res[el][col], dtype=float), want, equal_nan=True):
+                dis.append(f"{tag}: N-0 {el}.{col}: expected {want.tolist()} (evaluation with pf_options), real "
+                           f"{np.asarray(res[el][col]).tolist()}")
     for r, m in zip(resp, meta):
         if m[0] == "fold":
             if res is None:
@@ -300,8 +314,9 @@ def random_cases(rng, net):
     return dict(items)
 
 
-def brute_force(net, cases):
+def brute_force(net, cases, opt1=None):
     """independent: one deepcopy + runpp per case; returns per-case value vectors"""
+    opt1 = opt1 or {}
     import pandapower as pp
     per_case = []
     for el, v in cases.items():
@@ -312,7 +327,7 @@ def brute_force(net, cases):
             n2[el].at[i, "in_service"] = False
             try:
                 with core.quiet():
-                    pp.runpp(n2)
+                    pp.runpp(n2, **opt1)
             except Exception:        # noqa
                 continue
             vals = {"bus": n2.res_bus.vm_pu.values.copy()}
@@ -325,14 +340,14 @@ def brute_force(net, cases):
     return per_case
 
 
-def check_against_brute(net_before, cases, res, net_after, tol=1e-6):
+def check_against_brute(net_before, cases, res, net_after, tol=1e-6, opt0=None, opt1=None):
     """the property, literally; returns list of (key, text)"""
     import pandapower as pp
     bad = []
-    per_case = brute_force(net_before, cases)
+    per_case = brute_force(net_before, cases, opt1)
     n0 = copy.deepcopy(net_before)
     with core.quiet():
-        pp.runpp(n0)
+        pp.runpp(n0, **(opt0 or {}))
     for el in ["bus"] + [b for b in BRANCHES if len(net_before[b])]:
         col = "vm_pu" if el == "bus" else "loading_percent"
         n = len(net_before[el])
@@ -421,6 +436,12 @@ def stub_correspondence(ctx, whichs, n_cases):
                 ctx.tie_break(f"correspondence:{ctx.prop}", f"real analysis with stub raised {type(e).__name__}: {e}")
                 continue
             book.append((len(all_reqs), len(reqs), meta, case_ids, folded, stopped, obs, net, order, stub, raise_errors, which, k))
+            # direct oracle on the real run (no model involved): the in_service flags are restored on every path
+            for el, fl in obs["flags"].items():
+                if fl != stub["base"][el]:
+                    ctx.failure("restore", f"{which}: {el}.in_service after the analysis {fl}, before {stub['base'][el]} "
+                                           f"(raising cases: {[k2 for k2, c in stub['cases'].items() if c.get('raise')]}, "
+                                           f"raise_errors={raise_errors})", {"order": order, "stub": stub, "raise_errors": raise_errors})
             all_reqs += reqs
         ctx.count(json.dumps([order, stub["cases"]], sort_keys=True), nontrivial=len(stub["cases"]) >= 3)
         ctx.hist("n_cases", sum(len(v) for v in order.values()))
@@ -456,17 +477,20 @@ def run(ctx):
         cases = random_cases(rng, net)
         before = copy.deepcopy(net)
         net_json = pp.to_json(net)
+        opt0 = rng.choice([{}, {"trafo_loading": "current"}, {"calculate_voltage_angles": True}])
+        opt1 = rng.choice([{}, {"trafo_loading": "power"}, {"voltage_depend_loads": False, "trafo_loading": "power"}])
         try:
             with core.quiet():
-                res = run_contingency(net, cases)
+                res = run_contingency(net, cases, pf_options=opt0, pf_options_nminus1=opt1)
         except Exception as e:       # noqa
             ctx.note(f"run_contingency failed on generated net: {type(e).__name__}: {e}")
             continue
-        bad = check_against_brute(before, cases, res, net)
+        bad = check_against_brute(before, cases, res, net, opt0=opt0, opt1=opt1)
+        ctx.hist("options", f"{sorted(opt0)}/{sorted(opt1)}")
         ctx.count(net_json, nontrivial=sum(len(v["index"]) for v in cases.values()) >= 3)
         ctx.hist("oracle_cases", sum(len(v["index"]) for v in cases.values()))
         for key, text in bad:
-            ctx.failure(key, text, {"net_json": net_json, "cases": cases})
+            ctx.failure(key, text, {"net_json": net_json, "cases": cases, "opt0": opt0, "opt1": opt1})
         ctx.sample({"cases": cases, "max_loading_line": [round(float(x), 3) for x in res["line"].get("max_loading_percent", [])][:5]}, cap=3)
 
 
@@ -478,8 +502,8 @@ def replay(ctx, path):
     net = pp.from_json_string(r["net_json"])
     before = copy.deepcopy(net)
     with core.quiet():
-        res = run_contingency(net, r["cases"])
-    bad = check_against_brute(before, r["cases"], res, net)
+        res = run_contingency(net, r["cases"], pf_options=r.get("opt0") or {}, pf_options_nminus1=r.get("opt1") or {})
+    bad = check_against_brute(before, r["cases"], res, net, opt0=r.get("opt0"), opt1=r.get("opt1"))
     for b in bad:
         print(b)
     print("REPLAY", "FAILS" if bad else "holds")
